@@ -100,6 +100,12 @@ pub fn seeds(tier: Tier) -> Vec<String> {
         "local a <const> = 1\n",
         "local x: number = 1\nlocal y: typeof(x) = x\nlocal function f<T>(v: T, w: typeof(x)): typeof(x) local z: typeof(v) = v return z end\ntype A = typeof(y)\nE1(x, y, f)\n",
         "local M = require(\"m\")\nlocal v: M.Type = M.new()\nlocal w = v :: M.Other\nE1(M, v, w)\n",
+        // annotations of loop variables are read before the loop variables exist; a type function only sees its own names
+        "local k = 1\nfor k: typeof(k) in pairs({}) do E1(k) end\nfor k: typeof(k), v: typeof(k) in pairs({}) do E1(k, v) end\nfor k: typeof(k) = 1, 2 do E1(k) end\nE1(k)\n",
+        "local f, p = 1, 2\nlocal function f(p: typeof(f), q: typeof(p), ...: typeof(q)): typeof(f)\n\treturn p, q, f\nend\nE1(f, p)\n",
+        "local a, self = 1, 2\nlocal t = {}\nfunction t:m(a: typeof(self), b: typeof(a)): typeof(b)\n\treturn self, a, b\nend\nlocal g = function(a: typeof(a)): typeof(a) return a end\nE1(a, self, t, g)\n",
+        "local x = 1\ntype function tf(x) return x end\ntype function tg(y) local x = y return x end\nE1(x)\n",
+        "local x, y = 1, 2\ntype function th(a, b) local function x(y) return y end return x(a) end\nE1(x, y)\n",
         "local a, b, c = 1, 2, 3\nlocal f = function(a) return function(b) return function(c) return a, b, c end end end\nE1(f(a)(b)(c))\n",
         "if a then local a = 1 E1(a) elseif b then local b = 2 E1(b) else local c = 3 E1(c) end\nE1(a, b, c)\n",
         "local a = a\nlocal a = a\nlocal a, a = a, a\nE1(a)\n",
